@@ -60,7 +60,7 @@ var generators = []generator{
 	}},
 	{"lock", []string{"R07a", "R07b"}, func(c *Ctx, _ map[string]bool) { lockRules(c) }},
 	{"guards", []string{"R14a", "R14b", "R14c", "R14h"}, func(c *Ctx, _ map[string]bool) { guardFacts(c, requestPkgs, true, true, true) }},
-	{"extra", []string{"R01g", "R02e", "R04e", "R06d", "R08e", "R11c"}, extraRules},
+	{"extra", []string{"R01g", "R02e", "R04e", "R06d", "R07g", "R08e", "R11c"}, extraRules},
 	{"closers-all", []string{"R14d"}, func(c *Ctx, _ map[string]bool) {
 		runCloserRules(c, "R14d", allCloserEntries(), 55, "closers are closed, returned or handed to an owner on every path: every file, response body, backend stream, pipe end and reader obtained in a request path of package server, cache/disk, casblob and the proxy back ends is, on every exit of the function that obtained it, closed (possibly deferred), returned to the caller or handed to a callee that owns it (policies of the owning callees are themselves checked); an interface value that may be nil is not called")
 	}},
@@ -161,8 +161,8 @@ func init() {
 	prop("C06", []string{"R06a", "R06b", "R06c", "R06d", "R06e"},
 		structural+"Decided: (R06a) every Digest-typed field reachable from ActionResult through OutputFile, OutputDirectory -> Tree -> Directory -> FileNode (enumerated from the generated protobuf types) flows into the presence check or is fetched; (R06b) the hit return is dominated by that check returning nil and a missing blob maps to a miss; (R06c) a nil result maps to NotFound / 404 with no 200 body before; (R06d) in the backend worker every answer that does not confirm the blob (absent, or another size) raises the fail-fast miss signal; (R06e) with dependency checking on, AC content reaches clients only through GetValidatedActionResult.",
 		"Not decided: 'at that moment' (atomicity of the check with respect to concurrent eviction), the backend's truthfulness.")
-	prop("C07", []string{"R07a", "R07b", "R07e", "R07f", "R03e", "R01a", "R12e"},
-		structural+"Decided: (R07a) lockset: every access to the LRU index is made with c.mu held, Lock/Unlock balanced on every path, no double lock; (R07b) no blocking operation (file system, backend, semaphore, channel send, re-locking callee) while c.mu is held - the static deadlock argument; (R07e/R07f) closures run by several goroutines write shared variables only through atomics / disjoint slice elements that are awaited; (R03e) stale handles are re-validated; (R01a/R12e) an entry becomes visible in the index only after its file is complete, verified, synced and closed (whole values).",
+	prop("C07", []string{"R07a", "R07b", "R07e", "R07f", "R07g", "R03e", "R01a", "R12e"},
+		structural+"Decided: (R07a) lockset: every access to the LRU index is made with c.mu held, Lock/Unlock balanced on every path, no double lock; (R07b) no blocking operation (file system, backend, semaphore, channel send, re-locking callee) while c.mu is held - the static deadlock argument; (R07e/R07f) closures run by several goroutines write shared variables only through atomics / disjoint slice elements that are awaited; (R03e) stale handles are re-validated; (R01a/R12e) an entry becomes visible in the index only after its file is complete, verified, synced and closed (whole values); (R07g) cache files are never modified once created - new content goes to a new O_EXCL file, old files are only unlinked - which is what keeps a streaming read unaffected by overwrite and eviction.",
 		"Not decided: linearizability of histories, data-race freedom in general (only the enumerated sharing patterns), that a streaming read survives eviction (relies on POSIX unlink semantics).")
 	prop("C08", []string{"R08a", "R08b", "R08d", "R08e", "R01a", "R04a"},
 		structural+"Decided: (R08a) WriteAndClose writes the chunk table only after all chunks, the trailing probe and the hash comparison, then f.Sync() and f.Close() are error-checked before success; the header written first cannot validate without the table; (R08b) raw files are synced and closed with checked errors before success; (R08d) readHeader rejects every torn or inconsistent table (magic, count, frame size, chunk size, monotone offsets, last offset == file size) and both readers start with it; (R01a) the entry is indexed only after writeAndCloseFile returned nil; (R04a) a file that was not verified is removed on every exit - files are created under their final names, so a leftover would be indexed by the next start; (R08e) every class of entry that is served (compressed CAS, legacy CAS, AC/RAW) passed a completeness check of its file - on the pinned tree only compressed CAS does, the other two classes are recorded known findings (D31: a torn AC/RAW/.v1 file left by a kill is indexed and served).",
